@@ -202,6 +202,8 @@ class IndexMachine(TraceMachine):
             return
         _tops, ids = self._request(request, form)
         shallow = form == "closed"
+        if abort_at is not None and not fail:
+            jobs = 1  # which upload is the k-th must not depend on thread scheduling
         req_exp = expand(self.w, ids)
         before = self.listing()
         stale = self._stale_before()
